@@ -32,7 +32,8 @@ CFG = dict(
         "encoding/binary (PutUvarint/Uvarint/PutVarint/Varint, BigEndian) and hash/crc32 are re-implemented in the model "
         "(bitwise CRC, fuel-10 varint) and tied by byte-level correspondence, not by translation",
         "protocol bodies are tied to the schema theorems through the call sequence their real encode/decode make on the "
-        "packetEncoder/packetDecoder for generated values (dynamic skeleton), not by static extraction of the 275 methods",
+        "packetEncoder/packetDecoder for generated values (recorded, then interpreted by the model machines and, for 76 of 78 types, "
+        "parsed against a hand-written schema per type) - not by static extraction of the 275 methods",
         "time.Time/time.Duration fields are compared at the wire granularity (milliseconds; zero time = -1)",
         "the compression level is configuration, not wire data: values are compared and re-encoded at the default level"],
     trusted_base=[],
@@ -50,13 +51,16 @@ CFG["manifest"] = dict(
          "and proved equal to the model on every run; the real prepEncoder/realEncoder/realDecoder are compared byte for byte with the "
          "compiled model on primitive grids, random call sequences and on the recorded call sequence of the real encode and decode of "
          "every request/response type (78 types, every version 0..max, nil/empty/zero/extreme/random values), request frames, records, "
-         "batches with every codec and gzip level, message sets. The property itself is evaluated on the real code for every type x version: "
+         "batches with every codec and gzip level, message sets; for 76 of the 78 types a hand-written schema (all versions) reproduces the real "
+         "bytes through the very interpreters size/enc/dec the theorems are about, and for 74 the schema's decoder returns what the real decode "
+         "calls return; a Lean theorem (machine_encode) links the call-sequence machines to the schema interpreters. The property itself is evaluated on the real code for every type x version: "
          "prep length = bytes written, decode(encode v) succeeds and consumes everything, re-encoding gives identical bytes (same multiset of "
          "calls and same length where a Go map fixes no order), decoding again gives an equal value, the decoded value keeps its version.",
     note="Trusted: Lean kernel; tools/extract + GoSem.lean; harness, recording encoder/decoder and line protocol. Modelled not verified: "
-         "compression libraries and encoding/binary + hash/crc32 (re-implemented, tied by correspondence). That each body's decode mirrors its "
-         "encode for ALL values is observed on generated values per type x version, not proved (no static skeleton extraction; the shared "
-         "translator takes loop-free integer code only). Known findings of the pinned tree are listed in known_findings.d/C09.json.",
+         "compression libraries and encoding/binary + hash/crc32 (re-implemented, tied by correspondence). That each body's encode/decode is its schema for ALL values is observed on generated values per type x version "
+         "(hand-written schemas validated against recorded call sequences), not proved: there is no static skeleton extraction (the shared "
+         "translator takes loop-free integer code only). ProduceRequest and FetchResponse have no schema (their record sets are a union type); "
+         "the decoder machine is tied by correspondence only (no Lean theorem links it to dec). Known findings of the pinned tree are listed in known_findings.d/C09.json.",
     technique="Lean 4 proof (structural induction over a schema DSL, omega/simp) + regenerated bridge obligations + byte-level differential "
               "correspondence through a recording packetEncoder/packetDecoder + round-trip oracle on the real code",
 )
